@@ -274,7 +274,8 @@ func (self *Compiler) compileExpr(node ast.AnalyzedExpression) {
 
 		fields := make(map[string]*value.Value)
 		for _, field := range node.Fields {
-			fields[field.Key.Ident()] = value.ZeroValue(field.Expression.Type())
+			// only a placeholder: every field is assigned below (not every type has a zero value, e.g. functions)
+			fields[field.Key.Ident()] = value.NewValueNull()
 		}
 
 		object := *value.NewValueObject(fields)
